@@ -117,6 +117,7 @@ func cmdDump(args []string) int {
 	obl := fs.String("obl", "", "obligation name substring to print as SMT")
 	solve := fs.Bool("solve", false, "solve the obligations")
 	timeout := fs.Int("timeout", 10, "solver timeout (s)")
+	match := fs.String("match", "", "with -solve: only obligations whose name contains one of these |-separated substrings")
 	fs.Parse(args)
 	p, err := load(*repo)
 	if err != nil {
@@ -139,13 +140,27 @@ func cmdDump(args []string) int {
 		}
 		if *solve {
 			stats := newSolveStats()
-			solveAll(r.VC.obls, solveOpts{timeoutS: *timeout, scratch: scratch, workers: 14}, stats)
+			sel := r.VC.obls
+			if *match != "" {
+				sel = nil
+				for _, o := range r.VC.obls {
+					for _, m := range strings.Split(*match, "|") {
+						if strings.Contains(o.Name, m) {
+							sel = append(sel, o)
+							break
+						}
+					}
+				}
+			}
+			solveAll(sel, solveOpts{timeoutS: *timeout, scratch: scratch, workers: 14}, stats)
 		}
 		for _, o := range r.VC.obls {
 			fmt.Printf("   %-8s %-7s %5.2fs %s  %v\n", o.Kind, o.Status, o.Seconds, o.Name, o.Props)
 			if *obl != "" && strings.Contains(o.Name, *obl) {
 				fmt.Println("; splits:", strings.Join(o.Splits, " | "))
+				o.lightMode = os.Getenv("GOVC_LIGHT") != ""
 				fmt.Println(o.smtText(true))
+				o.lightMode = false
 				if o.Model != "" {
 					fmt.Println(o.Model)
 				}
